@@ -168,6 +168,9 @@ func checkC09(c *Ctx, r *Report) {
 	checkGeneratedIdentifiers(c, r)
 	checkIterableOnlyInQuery(c, r)
 
+	// ---- C09.g identifiers spelled from annotation values are validated as written
+	checkVerbTestedAsWritten(c, r, "C09.g")
+
 	// ---- C09.f one shared serial provider
 	checkSharedProvider(c, r, "C09.f")
 }
